@@ -153,8 +153,8 @@ structure Inv (enc : Nat → UInt8 → Bytes → Bytes) (vers : UInt8 × UInt8)
 
 /-- setting a non-EOF error on a state without pending input keeps the invariant -/
 theorem Inv.set_err {enc vers sent w} {st : St} (h : Inv enc vers sent w st)
-    (hin : st.input = none) (e : Err) (inp : Option Bytes) (he : e ≠ .eof) :
-    Inv enc vers sent w { st with err := some e, input := inp } := by
+    (hin : st.input = none) (e : Err) (inp : Option Bytes) (he : e ≠ .eof) (mf : Bool := st.macFailed) :
+    Inv enc vers sent w { st with err := some e, input := inp, macFailed := mf } := by
   have hp : pend st = [] := by unfold pend; rw [hin]; split <;> simp_all
   obtain ⟨j, hj, hjp⟩ := h.some_prefix
   refine ⟨h.stream, h.seqle, ⟨j, hj, ?_⟩, ?_, ?_, ?_⟩
@@ -277,7 +277,7 @@ theorem readRecord_inv {dec enc vers sent w} (ha : Authentic dec enc sent) :
               rename_i x hdec
               obtain ⟨e, inp, hd, he⟩ := dispatch_fail t x
               simp only [hd]
-              exact h.set_err hin e inp he
+              exact h.set_err hin e inp he true
     · -- fewer than 5 bytes left
       rename_i hno
       have hlen : st.raw.length < 5 := by
